@@ -259,7 +259,9 @@ func genMux(r *RNG, n int, op string, emit func(string)) {
 		} else {
 			for j := 0; j < k; j++ {
 				other := msgs[r.Intn(len(msgs))]
-				switch r.Intn(9) {
+				switch r.Intn(10) {
+				case 9:
+					add(fmt.Sprintf("i:%d:%d:%s:%%d", []uint32{4294967295, 0}[r.Intn(2)], m.code, rb))
 				case 0, 1:
 					add(fmt.Sprintf("i:%d:%d:%s:%%d", m.app, m.code, rb))
 				case 2:
@@ -277,7 +279,13 @@ func genMux(r *RNG, n int, op string, emit func(string)) {
 				case 6:
 					add(fmt.Sprintf("i:%d:%d:%s:%%d", m.app, m.code, map[bool]string{true: "A", false: "R"}[R]))
 				case 7:
-					add("i:4294967295:4294967295:A:%d") // the catch-all's own index
+					if r.Bool() {
+						add("i:4294967295:4294967295:A:%d") // the catch-all's own index
+					} else {
+						// the relay application id (0xffffffff is an ordinary id for HandleIdx), and
+						// application 0, with the message's own code and R bit
+						add(fmt.Sprintf("i:%d:%d:%s:%%d", []uint32{4294967295, 0}[r.Intn(2)], m.code, rb))
+					}
 				case 8:
 					add("n:ALL:%d")
 				}
